@@ -408,7 +408,12 @@ def sort_issues(issues, reverse=False):
             if key in int_sort_list:
                 result.append(d.get(key, -1))
             else:
-                result.append(d.get(key, ""))
+                # Columns of a file without a header are labelled by number: missing labels first, then numbers, then names.
+                value = d.get(key, "")
+                if isinstance(value, int):
+                    result.append((1, value, ""))
+                else:
+                    result.append((0 if value == "" else 2, 0, value))
         return tuple(result)
 
     issues = sorted(issues, key=_get_keys, reverse=reverse)
